@@ -537,6 +537,7 @@ reprocess:
 		case '+': /* a sign should be used, ignore */
 		case '\'': /* group in thousands, ignore */
 		case 'I': /* glibc-ism locale alternative, ignore */
+		case 'h': /* short and char arrive as int, nothing to note */
                     format++;
                     goto reprocess;
 		case '.': /* precision, ignore */
@@ -792,6 +793,7 @@ reprocess:
 		case '+': /* a sign should be used, ignore */
 		case '\'': /* group in thousands, ignore */
 		case 'I': /* glibc-ism locale alternative, ignore */
+		case 'h': /* short and char were stored as int, printf converts */
 		case '.': /* precision, ignore */
 		case '0': /* field width, ignore */
 		case '1': /* field width, ignore */
